@@ -14,7 +14,10 @@ RULE = ("the C07 grid (7 blocking operations x T in {-1,0,1,2,17,1000,2^31-1} x 
 ASSUMPTIONS = ["A-POLL: poll interrupted by a handled signal returns -1/EINTR and may be re-issued",
                "elapsed time across interruptions is modelled in whole milliseconds"]
 TRUSTED = ["tools/cxx2lean_eff.py (stage 2, DESIGN.md 0.7.1): world boundary (DoPoll, Interrupted, Clock::now, ::send, ::recv, SocketError opaque; handles dropped), C++ evaluation order, pointer = offset, string_view = (offset, length), objects = fields; Model/GenWorld.lean reads the model answers as C results",
-           "vos shim (EINTR injection into poll, virtual clock)"]
+           "vos shim (EINTR injection into poll, virtual clock)",
+           "the transcript parser of Drive/C01.lean (lines -> Spec.C01.Obs / Spec.C16.StepObs); the predicates themselves are Spec/C16.lean (= Spec/C07.lean "
+           "with the c16 flag, and specStepE for Driver::Step) and are no longer trusted to be consistent with the model: spec_holds_on_model / "
+           "spec_holds_on_model_step prove that they accept every trace of the model"]
 ALL_TAGS = ["eintr", "recv.none", "recv.value", "send.all", "send.try", "send.some", "sendto", "recvfrom", "listen", "step.eintr"]
 EXHAUSTIVE = {"quick": True, "thorough": True}
 
@@ -40,13 +43,18 @@ def gen(rng, tier):
     return cases
 
 
-TECHNIQUE = "Lean 4 theorems about the EINTR-retrying wait (any number/timing of interruptions) + trace validation under injected EINTR"
+TECHNIQUE = ("Lean 4 theorems about the EINTR-retrying wait (any number/timing of interruptions) + trace validation under injected EINTR; the run-time "
+             "predicates are their own Lean module (Spec/C16.lean) proved to accept every trace of the model")
 LEVEL_TEXT = ("Machine-checked theorems about the wait every blocking call goes through: signals alone never produce an exception; "
               "with an unlimited timeout the result equals the result on the script with all signal deliveries deleted; with a limited "
               "timeout the re-issued polls stay within the remaining budget, total blocking <= T and 'timeout' exactly at start+T; a "
               "signal followed by readiness equals readiness after the summed delay; the pre-fix wait (F2) is refuted by witness. Tied "
               "to /repo by replaying the full timeout grid with scripted EINTR results on the real sockets/Acceptor and comparing every "
-              "poll argument, result and virtual time with the model.")
+              "poll argument, result and virtual time with the model. The run-time predicates are typed, total Lean functions of their own module "
+              "(Spec/C16.lean: specStep = Spec.C07.specStepM with the c16 flag - timeout semantics kept by every operation that met a signal, 'a signal "
+              "made X fail'; specStepE for a Driver::Step under injected EINTR) and theorems of the model: spec_holds_on_model (every history, every number "
+              "and timing of eintr answers; T < 2^31, no 'timed out' answer to an unlimited poll) and spec_holds_on_model_step (wait T on every script "
+              "without a genuine poll failure) prove that they accept every trace the model can produce.")
 LEVEL_NOTE = ("Trusted: Lean kernel; axioms propext/Quot.sound/Classical.choice; model validated on the grid; vos shim. "
               "Stop() from a signal handler making Run() return is proved in C08's model and exercised with a real SIGINT in thorough.")
 
